@@ -823,10 +823,10 @@ pub fn run_c18(ctx: &mut Ctx) {
     for _ in 0..budget {
         let mut doc = gen_doc(&mut r, 2);
         if level == 0 {
-            // interpreter-sized: two links, at most two short attributes each
+            // interpreter-sized: two links, at most one short attribute each (fault positions still enumerated completely)
             doc.truncate(2);
             for l in doc.iter_mut() {
-                l.attrs.truncate(2);
+                l.attrs.truncate(1);
                 l.target = l.target.chars().take(3).collect();
                 for a in l.attrs.iter_mut() {
                     if let AttrKind::Plain(v) | AttrKind::Quoted(v) = &mut a.1 {
@@ -836,8 +836,7 @@ pub fn run_c18(ctx: &mut Ctx) {
             }
         }
         rep.distinct(fnv(describe(&doc).as_bytes()));
-        // interpreter-sized runs sample every 4th fault position; all other runs enumerate all
-        c18_doc(rep, &doc, &mut stats, if level == 0 { 4 } else { 1 });
+        c18_doc(rep, &doc, &mut stats, 1);
     }
     rep.add("sink_calls_in_fault_free_runs", stats.0);
     rep.add("fault_plans", stats.1);
